@@ -67,7 +67,9 @@ def fn_ob(prop: str, c: vc.Contract, callees: Dict[str, vc.Contract] = None, cal
             return core.undecided("engine-V", f"{fr.undecided_reason} (after {fr.paths} paths, {fr.vcs} VCs)", fr.seconds)
         if not names:
             return core.undecided("engine-V", "no obligation generated (vacuity guard)", fr.seconds)
-        if not fr.canary_ok:
+        if c.never_returns and not fr.canary_ok and any(".raises[" in n and ".only-when" in n for n in names):
+            pass        # every path ended in the specified exception and the condition was checked on each: nothing vacuous
+        elif not fr.canary_ok:
             return core.undecided("engine-V", "canary: no normal exit of the function is reachable under the precondition "
                                   "(contradictory requires / assumed contracts?)", fr.seconds)
         bad = [n for n in names if fr.obligations[n]["status"] == "refuted"]
